@@ -71,10 +71,12 @@ RegType(k) == CASE k = "int" -> 0 [] k = "float" -> 1 [] k = "string" -> 2 [] k 
 \*   reg    newRegister: `if num == maxRegistersCount {panic}`; operand int8, VM: r > 0 direct, r < 0 indirect
 \*   tab8   add*/make*: `if r == max {panic}`; operand int8(r), VM reads table[uint8(operand)]
 \*   val    make{Int,Float}Value + OpLoad: encodeValueIndex / decodeValueIndex (2 + 14 bits)
-\*   tab8nolimit  emitter_func_store.go scriggoFnIndex / predefFunc: `index := int8(len(table)); append`
-\*                - the path every direct call `f()` / `pkg.F()` takes; it has NO limit test
-\*   tab8signed   emitter_assignment.go address.targetType: `fb.fn.FieldIndexes[a.op2]` with op2 int8
-\*                - the compiler itself reads the field-index operand back WITHOUT the uint8 cast
+\*   tab8nolimit  `index := int8(len(table)); append` with NO limit test - the shape emitter_func_store.go
+\*                scriggoFnIndex / predefFunc had before commits a588706 / ba8b59a (they now go through
+\*                addFunction / addNativeFunction, class tab8)
+\*   tab8signed   the table indexed with the int8 operand itself, WITHOUT the uint8 cast - the shape
+\*                emitter_assignment.go address.targetType had before commit 660ae97
+\*   The last two classes are kept as negative controls: TLC must find Faithful violated on them.
 BuilderResources == {<<"reg", k>> : k \in RegKinds} \cup {<<"tab8", t>> : t \in Tables8} \cup {<<"val", k>> : k \in RegKinds}
 CallsiteResources == {<<"tab8nolimit", "scriggofuncs">>, <<"tab8nolimit", "nativefuncs">>, <<"tab8signed", "fieldindexes">>}
 Resources == IF ModelPaths = "callsites" THEN CallsiteResources ELSE BuilderResources
